@@ -4,6 +4,19 @@ import json, os
 PROPS = [json.loads(l)['id'] for l in open('/verif/properties.jsonl')]
 
 CLAIMED = {
+ 'C20': dict(
+   category='proof',
+   text=('For EVERY unit-cell size Nx,Ny>=1 and every boundary type (not only the <=5x5 box): neighbour lookup is mutually inverse wherever '
+         'defined (all shifts), sites and bonds are listed exactly once, horizontal bonds are lr- and fermionically ordered, vertical bonds are '
+         'tb-ordered and fermionically ordered EXACTLY unless they cross a cylinder boundary (exact characterisation + refutation witness of the '
+         'literal text: known finding), site2index is invariant under exactly the lattice periods, f_ordered is a total order, Checkerboard/'
+         'Triangular tables and period lattices, RectangularUnitcell accepts exactly the one-neighbourhood-per-label patterns, container get/set/'
+         'patch laws -- all Coq theorems about a hand-written model, tied to _geometry.py by EXHAUSTIVE correspondence over the property box.'),
+   design_ref='DESIGN.md section 6 C20',
+   note=('Trusted: Coq kernel, no axioms; the hand-written model Geom/Lattice.v is tied to the code only by the correspondence run (exhaustive '
+         'on SquareLattice 1..5x1..5x3 boundaries x window x 15 shifts, all small RectangularUnitcell patterns, sampled larger ones, container op '
+         'sequences); extraction cross-checked by an in-Coq vm_compute sample. Known finding C20-cylinder-wrap is reported as KNOWN-FINDING.'),
+   technique='Coq proof over hand-written model + exhaustive model/implementation correspondence'),
  'C19': dict(
    category='proof',
    text=('Group laws (associativity, commutativity, identity, inverse by signature flip, canonical range, order-irrelevance, '
